@@ -495,7 +495,9 @@ class Stream(APIRegisterMixin):
                 try:
                     result = await asyncio.gather(*self._emit(x, metadata=metadata))
                 finally:
-                    del thread_state.asynchronous
+                    # (not ``del``: the coroutines of several blocking emits
+                    # share the loop thread's thread_state)
+                    thread_state.asynchronous = False
                 return result
 
             sync(self.loop, _)
